@@ -17,17 +17,17 @@ LEANCHECKER_MODULES = ["Bec2Verif.Props.C05"]
 EDITS = ["none", "adr+1", "adr-1", "adr-relative", "adr-swap", "stored+1", "stored-1", "declared>stored", "declared=0",
          "declared-1", "dup-tag", "taglen+1", "taglen-1", "taglen-big", "dlen+1", "dlen-1", "dlen-big", "dlen-cut-in-tag",
          "elen+1", "elen-1", "elen=0", "dirsize+1", "dirsize-1", "dirsize-big", "no-sentinel", "sentinel-nonzero",
-         "sentinel-extra", "swap-entries-reindexed", "swap-entries-old-index", "iv-index+1", "iv-zero-based",
+         "sentinel-extra", "swap-entries-reindexed", "swap-entries-old-index", "iv-index+1", "iv-zero-based", "iv-mod-256",
          "trailing", "truncate-payload", "pmac-flip", "emac-flip", "payload-flip", "empty-payload",
          "enc-tag-on-plain", "reorder-tags", "drop-entry", "dup-entry"]
 
 
-def make_body(rng, key, pos):
-    n = rng.choice([1, 1, 2, 2, 3, 4])
+def make_body(rng, key, pos, many=False):
+    n = rng.choice([1, 1, 2, 2, 3, 4]) if not many else rng.choice([256, 257, 258, 300])
     ents = []
     for _ in range(n):
-        desc = g.gen_desc(rng, maxtl=120)
-        p = g.gen_payload(rng, 200)
+        desc = g.gen_desc(rng, maxtl=120) if not many else []
+        p = g.gen_payload(rng, 200) if not many else g.rbytes(rng, rng.choice([1, 1, 2, 16]))
         ents.append(layout.Entry(desc, p, rng.choice([len(p), len(p), 1, max(1, len(p) - 1)])))
     if rng.random() < 0.3:
         # the same payload twice (one image per hardware variant): equal stored bytes, equal payload MAC
@@ -41,7 +41,7 @@ def make_body(rng, key, pos):
 def apply_edit(rng, b, key, kind):
     """returns the bytes of the edited body (MACs recomputed unless the edit is about a MAC)"""
     es = b.entries
-    i = rng.randrange(len(es))
+    i = rng.randrange(len(es)) if len(es) < 200 else rng.randrange(254, len(es))    # many entries: beyond one-byte indices
     e = es[i]
     remac, relen, readr = True, False, False
     if kind == "adr+1":
@@ -121,6 +121,9 @@ def apply_edit(rng, b, key, kind):
     elif kind == "iv-zero-based":
         for n, x in enumerate(es):
             x.iv_index = n
+    elif kind == "iv-mod-256":
+        for n, x in enumerate(es):
+            x.iv_index = (n + 1) % 256
     elif kind == "trailing":
         b.trailing = g.rbytes(rng, rng.choice([1, 2, 16])) if rng.random() < 0.7 else b"\x00"
     elif kind == "truncate-payload":
@@ -179,6 +182,16 @@ def gen_cases(ctx, per_edit):
                 continue
             ctx.count("edit:" + kind)
             out.append((kind, hx(key), pos, hx(data)))
+    # directories with more entries than a one-byte index can count (entry MAC chained from the full entry index)
+    for kind in ("none", "iv-mod-256", "iv-index+1", "emac-flip", "adr+1", "drop-entry"):
+        key = g.gen_key(rng)
+        b = make_body(rng, key, 5, many=True)
+        try:
+            data = apply_edit(rng, b, key, kind)
+        except (OverflowError, ValueError):
+            continue
+        ctx.count("edit-many:" + kind)
+        out.append((kind, hx(key), 5, hx(data)))
     return out
 
 
